@@ -45,7 +45,7 @@ func (p *pool) Acquire(ctx context.Context) (v wire) {
 	p.cond.L.Lock()
 
 	// Set up ctx handling when waiting for an available connection
-	if len(p.list) == 0 && p.size == p.cap && !p.down && ctx.Err() == nil && ctx.Done() != nil {
+	if len(p.list) == 0 && p.size >= p.cap && !p.down && ctx.Err() == nil && ctx.Done() != nil {
 		poolCtx, cancel := context.WithCancelCause(ctx)
 		defer cancel(errAcquireComplete)
 
@@ -61,7 +61,7 @@ func (p *pool) Acquire(ctx context.Context) (v wire) {
 	}
 
 retry:
-	for len(p.list) == 0 && p.size == p.cap && !p.down && ctx.Err() == nil {
+	for len(p.list) == 0 && p.size >= p.cap && !p.down && ctx.Err() == nil {
 		p.cond.Wait()
 	}
 
@@ -69,6 +69,7 @@ retry:
 		deadPipe := deadFn()
 		deadPipe.error.Store(&errs{error: ctx.Err()})
 		v = deadPipe
+		p.size++ // every wire handed out is counted; Store uncounts it
 		p.cond.L.Unlock()
 		return v
 	}
